@@ -8,13 +8,14 @@ undecided (the guard talks about a node set whose provenance the model cannot es
 from __future__ import annotations
 
 import ast
+import re
 
 from core.guards import Formula, atom, atoms_of, f_and, f_not, f_or, implies
-from core.loader import Repo, norm
+from core.loader import AnalysisError, Repo, norm
 from core.report import Result
 
 from . import search as S
-from .common import dotted, stmt_of, where
+from .common import cfg_of, dotted, stmt_of, where
 
 
 def _hier_args(repo: Repo, call: ast.Call) -> list[str]:
@@ -42,6 +43,23 @@ def _unknown_sets(m: S.SearchModel, guard: Formula, variables: list[str]) -> lis
                 s = a[len(v) + 4:]
                 if s not in known and s not in out and S.opaque_set(m, s):
                     out.append(s)
+    return out
+
+
+def unresolved_subtree_sets(m: S.SearchModel, guard: Formula, variables: list[str]) -> list[str]:
+    """Node sets the guard tests one of the variables against that are computed from sub-tree lookups in a way the model did not
+    resolve into the subject's / the objects' sets: what the test says about those sets is unknown - not known to be nothing."""
+    known = _known_sets(m)
+    out: list[str] = []
+    for a in sorted(atoms_of(guard)):
+        for v in variables:
+            if a.startswith(f"{v} in "):
+                x = a[len(v) + 4:]
+                if x in known or x in out or not x.isidentifier():
+                    continue
+                # a set made of the known sets only (a union taken too early, a snapshot) is resolved - whatever the test then lacks, it lacks
+                if "subtree" in S.provenance(m, ast.Name(id=x, ctx=ast.Load()), stop=known):
+                    out.append(x)
     return out
 
 
@@ -164,14 +182,57 @@ def run_search(repo: Repo, res: Result) -> None:
             # S4: object set is the object's whole subtree; both endpoints must not be 'sub modules of' parents
             subj_param = m.subject_param or fi.param_names[1]
             obj_param = m.object_param or fi.param_names[2]
-            obj_sets = [v for v, p in m.submodule_sets.items() if p == obj_param]
+            batched = obj_param in m.collection_params  # one walk answers for a whole collection of objects
+            obj_sets = [v for v, p in m.submodule_sets.items() if p == obj_param] + [d for d, nm in m.node_maps.items() if obj_param in (nm.collection, nm.param)]
             excls = [v for v, ps in m.parent_id_sets.items() if sorted(ps) == sorted([subj_param, obj_param])]
             for e in rec:
+                if batched:
+                    # 'edge' requirements are judged per subject/object pair: an import into the sub-tree of an object belongs to
+                    # the answer for that object - for every object whose sub-tree holds the target, not for one of them
+                    kvar, nmap, how = S.filed_under(m, e)
+                    each = S.each_object(m, e) if nmap is None else None
+                    n += 1
+                    key = repo.key(fi, stmt_of(e.call)) + " [every pair gets its imports]"
+                    if each is not None:
+                        # `for o in objects: if neighbour in sub_tree[o]: result[o].append(..)`: every object is asked - as long as the loop is not left
+                        kvar, each_sets, each_loop = each
+                        how = "each"
+                        leaves = [x for b in each_loop.body for x in ast.walk(b) if isinstance(x, (ast.Break, ast.Return))]
+                        if leaves:
+                            res.add("C01.S", key, False, f"the loop over the objects `{norm(each_loop.iter)}` is left (`{norm(leaves[0])}`) once the import is filed under one of them: an object that comes later and whose sub-tree holds `{e.nvar}` as well (a package and one of its sub packages named in the same rule) never gets this import", where(fi, leaves[0]), kind="dominance")
+                        else:
+                            res.add("C01.S", key, True, f"every object of `{obj_param}` is asked whether its sub-tree holds `{e.nvar}`", where(fi, e.call), kind="dominance")
+                        obj_sets = obj_sets + [x for x in each_sets if x not in obj_sets]
+                    elif nmap is not None and how == "lookup" and nmap.single:
+                        res.add(
+                            "C01.S", key, False,
+                            f"the import is filed under the one object `{norm(e.key) if kvar is None else kvar} = {nmap.var}[{e.nvar}]`, and `{norm(nmap.store)}` keeps one object per node: when the sub-trees of two objects of "
+                            f"`{obj_param}` overlap (a package and one of its sub packages named in the same rule) the node is overwritten and the pair of the other object never gets this import "
+                            f"(a named module stands for itself and all its descendants, and every subject/object pair is judged on its own)",
+                            where(fi, nmap.store), kind="dominance",
+                        )
+                    elif nmap is not None and how == "loop" and not nmap.single:
+                        res.add("C01.S", key, True, f"the import is filed under every object whose sub-tree holds `{e.nvar}`", where(fi, e.call), kind="dominance")
+                    else:
+                        res.undecide("C01.S", key, f"cannot tell under which object(s) of `{obj_param}` the pair `{e.what}` is filed (key: `{norm(e.key) if e.key is not None else 'none'}`)", where(fi, e.call))
+                    if kvar is not None:
+                        excls = [v for v, ps in m.parent_id_sets.items() if sorted(ps) == sorted([subj_param, kvar]) and _same_object(m, v, e, kvar)]
                 n += 1
                 ok = any(implies(e.guard, atom(f"{e.nvar} in {s}")) for s in obj_sets)
+                if not ok and batched and how == "loop" and nmap is not None and nmap.var in obj_sets:
+                    ok = True  # bound by iterating the map entry of the neighbour: only objects whose sub-tree holds it
+                if not ok and batched and how == "lookup" and nmap is not None and nmap.var in obj_sets and kvar is not None and implies(e.guard, f_not(atom(f"{kvar} is None"))):
+                    ok = True  # `o = D.get(neighbour)` and `o is not None`: the neighbour is a key of the map
+                if batched and nmap is not None and nmap.collection == nmap.var and not getattr(nmap, "from_caller", False) and ok:
+                    # the lookup is a parameter and no caller shows how it is filled: that its keys are the objects' sub-trees is the caller's business
+                    res.undecide("C01.S", repo.key(fi, stmt_of(e.call)) + " [object subtree]", f"the node -> object lookup `{nmap.var}` is handed in and the model found no caller that builds it from {S.SUBMODULES}", where(fi, e.call))
+                    n -= 1
+                    ok = None
                 unknown = [] if ok else _unknown_sets(m, e.guard, [e.nvar])
                 key = repo.key(fi, stmt_of(e.call)) + " [object subtree]"
-                if not ok and unknown and not obj_sets:
+                if ok is None:
+                    pass  # reported as undecided above
+                elif not ok and unknown and not obj_sets:
                     res.undecide("C01.S", key, f"the recorded target is restricted to `{unknown[0]}`, a set the model cannot relate to {S.SUBMODULES}(graph, {obj_param})", where(fi, e.call))
                 else:
                     res.add(
@@ -207,6 +268,10 @@ def run_search(repo: Repo, res: Result) -> None:
             for e in rec:
                 n += 1
                 ok = any(implies(e.guard, f_not(atom(f"{e.nvar} in {x}"))) for x in exc) and any(implies(e.guard, f_not(atom(f"{e.nvar} in {o}"))) for o in own)
+                unresolved = [] if ok else unresolved_subtree_sets(m, e.guard, [e.nvar])
+                if unresolved:
+                    res.undecide("C01.S", repo.key(fi, stmt_of(e.call)) + " [something else]", f"the pair is recorded under `{e.guard_text}`: `{unresolved[0]}` is computed from sub-tree lookups in a way the model cannot relate to the subject's sub-tree `{own[0]}` / the objects `{exc[0]}`", where(fi, e.call))
+                    continue
                 res.add(
                     "C01.S",
                     repo.key(fi, stmt_of(e.call)) + " [something else]",
@@ -215,6 +280,8 @@ def run_search(repo: Repo, res: Result) -> None:
                     where(fi, e.call),
                     kind="dominance",
                 )
+            n += _exempt_sets_exact(repo, res, m, subj, own, exc, rec)
+            n += _own_subtree_expanded(repo, res, m, subj, own, exc)
             # the subject set skips exactly itself when accumulating the excluded set
             for st in m.subtree_sites:
                 if st.collection is None or st.target not in exc:
@@ -233,6 +300,238 @@ def run_search(repo: Repo, res: Result) -> None:
     # vacuity is excluded per search by the role requirements above (models() demands all four searches, every explicit / other
     # search must record inside its neighbour iteration, explicit / sub-module searches must push); the floor is a backstop
     res.floor("C01.S", 12, n)
+
+
+def _same_object(m: S.SearchModel, setvar: str, ev: S.Event, kvar: str) -> bool:
+    """The parent-identifier set `setvar` was computed from the same value of the object variable `kvar` the event is filed under:
+    both sit in one iteration of the neighbour loop, after the only assignment to `kvar` in it (or inside the loop that binds it)."""
+
+    fn = m.fi.node
+    defs = [n for n in ast.walk(fn) if isinstance(n, (ast.Assign, ast.AnnAssign)) and any(isinstance(t, ast.Name) and t.id == setvar for t in (n.targets if isinstance(n, ast.Assign) else [n.target]))]
+    if len(defs) != 1:
+        return False
+    d = defs[0]
+    binder = next((a for a in S.ancestors(ev.call) if isinstance(a, (ast.For, ast.AsyncFor)) and isinstance(a.target, ast.Name) and a.target.id == kvar), None)
+    if binder is not None:
+        return any(a is binder for a in S.ancestors(d))
+    it = next((i for i in m.neighbour_iters if i.gen is None and S._inside_body(ev.call, i.node)), None)
+    if it is None or not S._inside_body(d, it.node):
+        return False
+    stores = [x for x in ast.walk(it.node) if isinstance(x, ast.Name) and x.id == kvar and isinstance(x.ctx, ast.Store)]
+    if len(stores) != 1:
+        return False
+    cfg = cfg_of(m.fi)
+    kst = stmt_of(stores[0])
+    # the names the set is computed from (`module_filters = [subject, o]`) are bound after `o` as well
+    chain = [d]
+    single = S._single_assignments(fn)
+    for x in ast.walk(d.value):
+        if isinstance(x, ast.Name) and x.id in single:
+            chain.append(stmt_of(single[x.id]))
+    return all(cfg.dominates(kst, c) for c in chain if c is not None) and cfg.dominates(d, stmt_of(ev.call))
+
+
+_NAME_TEST = re.compile(r"\.(startswith|endswith|removeprefix|removesuffix|rpartition|partition|rsplit|split|find|rfind|count)\(")
+
+
+def _implies_for_some(premise: Formula, conclusion: Formula, free: list[str]) -> bool:
+    """premise -> (exists free atoms. conclusion), by enumeration."""
+    from core.guards import assignments, evaluate
+
+    bound = sorted((atoms_of(premise) | atoms_of(conclusion)) - set(free))
+    for env in assignments(bound):
+        if not evaluate(premise, env):  # no free atom occurs in the premise
+            continue
+        if not any(evaluate(conclusion, {**env, **e2}) for e2 in assignments(free)):
+            return False
+    return True
+
+
+def _set_mutations(m: S.SearchModel, name: str) -> list[tuple[ast.AST, str, list[ast.AST]]]:
+    """[(node, grow | shrink | other, element expressions)] for every statement of the view that changes the node set `name`."""
+    out: list[tuple[ast.AST, str, list[ast.AST]]] = []
+    for n in ast.walk(m.fi.node):
+        if isinstance(n, ast.Call) and isinstance(n.func, ast.Attribute) and isinstance(n.func.value, ast.Name) and n.func.value.id == name:
+            a = n.func.attr
+            if a in ("add", "update", "append", "extend"):
+                out.append((n, "grow", list(n.args)))
+            elif a in ("remove", "discard", "difference_update"):
+                out.append((n, "shrink", list(n.args)))
+            elif a in ("clear", "pop", "intersection_update", "symmetric_difference_update"):
+                out.append((n, "other", list(n.args)))
+        elif isinstance(n, ast.AugAssign) and isinstance(n.target, ast.Name) and n.target.id == name:
+            out.append((n, "grow" if isinstance(n.op, (ast.BitOr, ast.Add)) else "shrink" if isinstance(n.op, ast.Sub) else "other", [n.value]))
+        elif isinstance(n, ast.Assign) and any(isinstance(t, ast.Name) and t.id == name for t in n.targets):
+            out.append((n, "bind", [n.value]))
+        elif isinstance(n, ast.AnnAssign) and isinstance(n.target, ast.Name) and n.target.id == name and n.value is not None:
+            out.append((n, "bind", [n.value]))
+    return out
+
+
+def _own_subtree_expanded(repo: Repo, res: Result, m: S.SearchModel, subj: str, own: list[str], exc: list[str]) -> int:
+    """A named module stands for itself and all its descendants - as a *subject* too: every node of the subject's own sub-tree is
+    expanded (its imports are looked at), whatever else it belongs to.  The test that keeps excluded objects from being expanded
+    must therefore not apply to a node of the subject's sub-tree (`pkg should not import anything except pkg.child`: the imports of
+    pkg.child are still imports of pkg).  Only the parent identifier of a 'sub modules of' subject is left out.
+
+    Decided on the conditions under which the neighbour lookup of a popped node is reached: with `node in own`, not yet visited
+    and not (subject is 'sub modules of' and node is its identifier) the lookup must be reached."""
+    fi = m.fi
+    n = 0
+    single = S._single_assignments(fi.node)
+    for c in (m.neighbour_calls or [m.neighbour_call]):
+        g = m.guard_of(c)
+        pop = m.popped
+        mentions = re.compile(rf"(?<![\w.]){re.escape(pop)}(?![\w])")
+        flag = atom(f"bool({subj}.{S.PARENT_FLAG})")
+        is_parent = S.to_formula(ast.Compare(left=ast.Name(id=pop, ctx=ast.Load()), ops=[ast.Eq()], comparators=[ast.Attribute(value=ast.Name(id=subj, ctx=ast.Load()), attr=S.NODE_ATTR, ctx=ast.Load())]), m.subst)
+        premise = f_and([f_or([atom(f"{pop} in {o}") for o in own]), f_not(f_and([flag, is_parent]))] + [f_not(atom(f"{pop} in {v}")) for v in m.visited_sets])
+        # conditions on the edge to a neighbour (a filter of the comprehension the lookup sits in) are not conditions on the popped node
+        nvars = [re.compile(rf"(?<![\w.]){re.escape(i.var)}(?![\w])") for i in m.neighbour_iters if i.var != pop]
+        free = sorted(a for a in atoms_of(g) if a not in atoms_of(premise) and (not mentions.search(a) or any(r.search(a) for r in nvars)))
+        n += 1
+        key = f"{fi.relpath}::{getattr(fi, 'shown', fi.qualname)}::every node of the subject's sub-tree is expanded"
+        try:
+            ok = _implies_for_some(premise, g, free)
+        except AnalysisError as err:
+            res.undecide("C01.S", key, f"the condition under which `{norm(c)}` is reached is too large to enumerate ({err})", where(fi, c))
+            continue
+        if ok:
+            res.add("C01.S", key, True, f"a popped node of `{own[0]}` always reaches `{norm(c)}` (only the parent identifier of a 'sub modules of' subject is left out)", where(fi, c), kind="dominance")
+            continue
+        # which test keeps an own node from being expanded
+        bad = []
+        for x in exc:
+            if f"{pop} in {x}" not in atoms_of(g):
+                continue
+            try:  # the lookup is reached for every own node outside x: membership in x is what keeps own nodes from being expanded
+                if _implies_for_some(f_and([premise, f_not(atom(f"{pop} in {x}"))]), g, free):
+                    bad.append(x)
+            except AnalysisError:
+                pass
+        other = sorted(a for a in atoms_of(g) if mentions.search(a) and a not in atoms_of(premise) and not any(a == f"{pop} in {x}" for x in exc))
+        if bad:
+            test = next((t for t in ast.walk(m.loop) if isinstance(t, ast.Compare) and len(t.ops) == 1 and isinstance(t.ops[0], (ast.In, ast.NotIn)) and norm(t.left) == pop and isinstance(S.strip(t.comparators[0]), ast.Name) and (S.strip(t.comparators[0]).id == bad[0] or bad[0] in {x.id for x in ast.walk(single.get(S.strip(t.comparators[0]).id, ast.Constant(value=None))) if isinstance(x, ast.Name)})), None)
+            st = stmt_of(test) if test is not None else stmt_of(c)
+            res.add(
+                "C01.S", key, False,
+                f"`{norm(st)[:80]}` also skips nodes of the subject's own sub-tree `{own[0]}`: a module of the subject that lies inside an excepted object (subject `pkg`, object `pkg.child`; a regex that matches a package and its children) is never expanded, "
+                f"so its imports of something else are never reported (`{norm(c)}` is only reached under `{pop} not in {bad[0]}`; the skip must spare `{own[0]}`, e.g. skip `{bad[0]} - {own[0]}`)",
+                where(fi, st), kind="dominance",
+            )
+        else:
+            res.undecide("C01.S", key, f"whether a popped node of `{own[0]}` reaches `{norm(c)}` also depends on {other or sorted(atoms_of(g))}, which the model cannot relate to the subject's sub-tree or the excluded objects", where(fi, c))
+    return n
+
+
+def _exempt_sets_exact(repo: Repo, res: Result, m: S.SearchModel, subj: str, own: list[str], exc: list[str], rec: list) -> int:
+    """'Something else' is everything outside the subject and the named objects - and nothing but that: the node sets whose
+    members are not reported hold the subject's sub-tree / the objects' sub-trees (up to the documented adjustment for
+    'sub modules of' filters) and nothing else, and an import edge to a node outside them is recorded.
+
+    [exempt set]  every statement that changes one of the two sets is the sub-tree lookup itself, the adjustment by the
+                  identifier of a 'sub modules of' filter - or it puts in / takes out other nodes (VIOLATION when those are computed
+                  from module names alone, e.g. the ancestors of the subject; undecided when the model cannot see where they come from)
+    [nothing else exempt]  under (import edge, neighbour not in the subject's sub-tree, neighbour not in the objects) the pair is recorded"""
+    fi = m.fi
+    n = 0
+    single = S._single_assignments(fi.node)
+    for name in own + exc:
+        what_for = f"the subject's sub-tree {S.SUBMODULES}(graph, {subj})" if name in own else "the sub-trees of the named objects"
+        for node, kind, elts in _set_mutations(m, name):
+            st = stmt_of(node)
+            if any((stmt_of(site.call) is st or any(f is st for f in site.fills)) and site.target == name for site in m.subtree_sites):
+                # the sub-tree lookup that fills the set - unless the same statement puts more in / takes something out
+                extra_ops = [x for e in elts for site in m.subtree_sites if kind == "bind" and S._is_base_of(site.call, e) for x in S._addends(e, site.call) + S._subtrahends(e) if not S._is_empty_collection(x)]
+                if not extra_ops:
+                    continue
+            if kind == "bind" and all(S._is_empty_collection(e) for e in elts):
+                continue
+            ops = [op for op in m.set_ops if op.node is node]
+            if ops and all(op.what.endswith("." + S.NODE_ATTR) for op in ops):
+                continue  # judged as [sub-tree adjustment]
+            if kind == "bind":
+                # a set computed from the sub-tree set itself (`S = S - E`, `S = get_all_submodules_of(..) - E`): what is taken out is E
+                based = any(isinstance(x, ast.Name) and x.id == name for e in elts for x in ast.walk(S.strip(e))) or any(S._is_base_of(site.call, e) for site in m.subtree_sites for e in elts)
+                subs = [x for e in elts for x in S._subtrahends(e) if not S._is_empty_collection(x)]
+                adds = [x for e in elts for site in m.subtree_sites if S._is_base_of(site.call, e) for x in S._addends(e, site.call) if not S._is_empty_collection(x)]
+                if based and not subs and not adds:
+                    continue
+                if based and adds:
+                    kind, elts = "grow", adds  # `S = get_all_submodules_of(..) | E`
+                elif based:
+                    kind, elts = "shrink", subs
+            n += 1
+            key = repo.key(fi, st) + " [exempt set]"
+            prov: set[str] = set()
+            for e in elts:
+                prov |= S.provenance(m, e)
+            verb = {"grow": "puts nodes into", "shrink": "takes nodes out of"}.get(kind, "changes")
+            if kind in ("grow", "shrink") and S.names_only(prov):
+                effect = "imports of these modules are no longer reported as 'something else'" if kind == "grow" else ("imports that stay inside the subject are reported as 'something else'" if name in own else "imports of a named object are reported as 'something else'")
+                res.add(
+                    "C01.S", key, False,
+                    f"`{norm(node)}` {verb} `{name}`, the set holding {what_for}, nodes that are computed from module names alone ({', '.join(sorted(prov))}) and not looked up as sub modules in the graph: "
+                    f"{effect} (only imports that stay inside the subject and imports of the named objects are exempt; an ancestor or a sibling of the subject is something else)",
+                    where(fi, node), kind="dominance",
+                )
+            elif kind == "grow" and name in own and m.direction == "succ" and prov and prov <= {f"filter:{subj}", "const"} and f"filter:{subj}" in prov:
+                n -= 1  # the subject's own node, as it is: a member of its sub-tree anyway (the forward search never takes it out)
+            elif kind in ("grow", "shrink") and prov == {"subtree"} and name in own and all(site.param == subj for site in m.subtree_sites if any(site.call is x for e in elts for x in ast.walk(e))):
+                n -= 1  # the subject's own sub-tree once more
+            else:
+                res.undecide("C01.S", key, f"`{norm(node)}` {verb} `{name}`, the set holding {what_for}, and the model cannot tell which nodes ({', '.join(sorted(prov)) or 'no source found'})", where(fi, node))
+    # converse of [something else]: nothing but the two sets keeps an import edge from being recorded
+    for var in dict.fromkeys(i.var for i in m.neighbour_iters):
+        its = [i for i in m.neighbour_iters if i.var == var]
+        evs = [e for e in rec if e.nvar == var]
+        if not evs:
+            continue
+        it = its[0]
+        reaches = []
+        for i_ in its:
+            head = i_.node if i_.gen is None else i_.node.generators[i_.gen].iter
+            reaches.append(m.guard_of(head, i_.extra) if i_.gen is None else S.conds_formula(S.all_conds(fi, head) + list(i_.extra), m.subst))
+        reach = f_or(reaches)
+        H = m.hier(it.var)
+        outside = f_and([reach, f_not(H)] + [f_not(atom(f"{it.var} in {x}")) for x in own + exc])
+        recorded = f_or([e.guard for e in evs])
+        n += 1
+        key = repo.key(fi, stmt_of(evs[0].call)) + " [nothing else exempt]"
+        known = atoms_of(outside)
+        # the question is which *neighbours* are exempt: conditions that do not mention the neighbour (an early return when nothing was
+        # collected, a flag of the subject) are left open
+        mentions = re.compile(rf"(?<![\w.]){re.escape(it.var)}(?![\w])")
+        free = sorted(a for a in atoms_of(recorded) if a not in known and not mentions.search(a))
+        try:
+            holds = _implies_for_some(outside, recorded, free)
+        except AnalysisError as err:
+            res.undecide("C01.S", key, f"the condition under which a pair is recorded is too large to enumerate ({err})", where(fi, evs[0].call))
+            continue
+        if holds:
+            res.add("C01.S", key, True, "every import edge that leaves the subject and does not end in a named object is recorded", where(fi, evs[0].call), kind="dominance")
+            continue
+        extra = sorted(a for a in atoms_of(recorded) if a not in known and a not in free)
+        sets = [a[len(it.var) + 4:] for a in extra if a.startswith(f"{it.var} in ")]
+        culprit = next((x for x in sets if x.isidentifier() and x not in m.visited_sets and S.names_only(S.provenance(m, ast.Name(id=x, ctx=ast.Load())))), None)
+        name_test = next((a for a in extra if _NAME_TEST.search(a)), None)
+        if culprit is None and name_test is not None:
+            res.add(
+                "C01.S", key, False,
+                f"whether an import edge to a node outside the subject's sub-tree `{own[0]}` and outside the objects `{exc[0]}` is recorded also depends on the name test `{name_test}` on the other end: "
+                f"modules are exempted from 'something else' by how they are called, not by being inside the subject or a named object",
+                where(fi, evs[0].call), kind="dominance",
+            )
+        elif culprit is not None:
+            res.add(
+                "C01.S", key, False,
+                f"an import edge to a node outside the subject's sub-tree `{own[0]}` and outside the objects `{exc[0]}` is still not recorded when the node is in `{culprit}`, a set computed from module names alone: "
+                f"more than the subject and the named objects is exempt from 'something else'",
+                where(fi, evs[0].call), kind="dominance",
+            )
+        else:
+            res.undecide("C01.S", key, f"whether an import edge leaving the subject is recorded also depends on {extra or [e.guard_text for e in evs]}, which the model cannot relate to the subject's sub-tree or the named objects", where(fi, evs[0].call))
+    return n
 
 
 def run_lookup(repo: Repo, res: Result, rule_id: str = "C13.R6") -> int:
@@ -267,6 +566,10 @@ def run_closure(repo: Repo, res: Result, rule_id: str = "C03.R1") -> int:
             n += 1
             goal = f_or([atom(f"{e.what} in {s}") for s in own + exc])
             ok = implies(e.guard, goal)
+            unresolved = [] if ok else unresolved_subtree_sets(m, e.guard, [e.what])
+            if unresolved:
+                res.undecide(rule_id, repo.key(fi, stmt_of(e.call)) + " [push stays inside subject or excluded objects]", f"`{e.what}` is pushed under `{e.guard_text}`: `{unresolved[0]}` is computed from sub-tree lookups in a way the model cannot relate to `{own[0]}` / `{exc[0]}`", where(fi, e.call))
+                continue
             res.add(
                 rule_id,
                 repo.key(fi, stmt_of(e.call)) + " [push stays inside subject or excluded objects]",
@@ -281,8 +584,13 @@ def run_closure(repo: Repo, res: Result, rule_id: str = "C03.R1") -> int:
         res.add(rule_id, repo.key(fi, anchor) + " [worklist start]", ok, f"worklist starts from {S.SUBMODULES}(graph, {subj})" if ok else f"worklist starts from {m.worklist_sources}, not from the subject's subtree `{own[0]}`", where(fi, anchor), kind="structural")
         n += 1
         if pushes:
-            ok = all(any(implies(m.guard_of(c), f_not(atom(f"{m.popped} in {x}"))) for x in exc) for c in (m.neighbour_calls or [m.neighbour_call]))
-            res.add(rule_id, f"{fi.relpath}::{shown}::excluded nodes are not expanded", ok, "popped nodes in the excluded set are skipped" if ok else f"a popped node in `{exc[0]}` is expanded: imports of the rule's objects are reported as the subject's", where(fi, m.neighbour_call), kind="dominance")
+            in_own = [atom(f"{m.popped} in {o}") for o in own]
+            ok = all(any(implies(m.guard_of(c), f_or([f_not(atom(f"{m.popped} in {x}")), *in_own])) for x in exc) for c in (m.neighbour_calls or [m.neighbour_call]))
+            unresolved = [] if ok else [x for c in (m.neighbour_calls or [m.neighbour_call]) for x in unresolved_subtree_sets(m, m.guard_of(c), [m.popped])]
+            if unresolved:
+                res.undecide(rule_id, f"{fi.relpath}::{shown}::excluded nodes are not expanded", f"the expansion of `{m.popped}` is guarded by a test of `{unresolved[0]}`, which is computed from sub-tree lookups in a way the model cannot relate to `{exc[0]}`", where(fi, m.neighbour_call))
+                continue
+            res.add(rule_id, f"{fi.relpath}::{shown}::excluded nodes are not expanded", ok, "popped nodes in the excluded set are skipped (unless they belong to the subject itself)" if ok else f"a popped node in `{exc[0]}` is expanded: imports of the rule's objects are reported as the subject's", where(fi, m.neighbour_call), kind="dominance")
         else:
             res.add(rule_id, f"{fi.relpath}::{shown}::no push", True, "the search never extends its worklist beyond the subject's subtree", where(fi, fi.node), nontrivial=False)
     return n
